@@ -93,6 +93,11 @@ class ClassInfo:
             elif isinstance(v, ast.UnaryOp) and isinstance(v.op, ast.USub) and isinstance(v.operand, ast.Constant) \
                     and isinstance(v.operand.value, (int, float)) and not n.startswith('_'):
                 out[n] = -v.operand.value
+            elif isinstance(v, (ast.Attribute, ast.Name, ast.BinOp, ast.Call, ast.Subscript, ast.JoinedStr, ast.List, ast.Dict, ast.Set)) and not n.startswith('_') \
+                    and n not in self.annots:
+                # a member whose value is a computed expression (another enumeration's member, a call ...): kept as the expression, evaluated
+                # by the folder where the value is needed
+                out[n] = v
             elif isinstance(v, ast.Tuple) and not n.startswith('_'):
                 # a member whose value is a tuple of literals (the arguments of the enumeration's __init__)
                 try:
